@@ -67,6 +67,7 @@ add("C25", "other", HYB + "PROVED for all inputs: ResultCache.get hits only for 
 add("C26", "other", HYB + "PROVED for all inputs: the 10 builders forward every argument (join-key check flag included) through an eliminated order_rows and to the constructors, select_columns validates against its own step also when collapsing; BOUNDED: the constructors' rule checks on every enumerated prefix x violating/conforming step per rule, and no accepted pipeline raises a rule error at evaluation.",
     PYVC_TB + "; constructors' rule checks not under contract; " + BOUNDED_TB, "contract-based deductive verification of the forwarding obligations (VCs from the real AST, z3) + run-time contracts over an enumerated scope for the rule checks", "§5 C26")
 
+PROOF_PROPS = {"C04", "C06", "C07", "C08", "C09", "C10", "C11", "C14", "C16", "C17", "C18", "C19", "C20", "C22", "C23", "C24", "C25", "C26", "C27"}  # properties with discharged obligations
 NA = [("C02", "no PostgreSQL server or formal PostgreSQL semantics in the sandbox: no contract within reach can be discharged or even checked boundedly; dialect text paths are exercised under C04/C16 on SQLite as a labelled surrogate, which does not decide C02")]
 
 def main():
@@ -82,7 +83,7 @@ def main():
             "thorough_cmd": "./check %s --tier thorough" % pid,
             "evidence_file": "evidence/%s.json" % pid,
             "replay_cmd_template": "./check %s --replay {path}" % pid,
-            "engine": "pyvc+cbc" if m["cat"] in ("proof", "other") else "cbc",
+            "engine": "pyvc+cbc" if pid in PROOF_PROPS else "cbc",
             "level_claimed": {"category": m["cat"], "text": m["text"], "design_ref": m["design"]},
             "level_note": m["note"],
             "technique": m["technique"],
@@ -98,12 +99,12 @@ def main():
         "hooks": {"guard": "DATA_ALGEBRA_VERIF", "enable": "no source hooks in /repo: contracts are sidecars under /verif/contracts, attached in-process by the checks (./check exports DATA_ALGEBRA_VERIF=1); /repo only carries unguarded `fix:` commits",
                   "baseline_off_cmd": BASE, "source_commits": [], "add_only": True},
         "engines": [
-            {"name": "pyvc", "path": "pyvc/", "serves_properties": sorted(p for p in claimed if P[p]["cat"] in ("proof", "other")), "kind_free_text": "verification-condition generator over the real /repo AST (symbolic executor, sidecar contracts, loop invariants), z3 + cvc5, finite-scope refutation with native replay"},
+            {"name": "pyvc", "path": "pyvc/", "serves_properties": sorted(p for p in claimed if p in PROOF_PROPS), "kind_free_text": "verification-condition generator over the real /repo AST (symbolic executor, sidecar contracts, loop invariants), z3 + cvc5, finite-scope refutation with native replay"},
             {"name": "cbc", "path": "cbc/", "serves_properties": sorted(claimed), "kind_free_text": "contracts checked at run time on the real functions over exhaustively enumerated small scopes (bounded stand-in, never counted as proved)"},
         ],
         "checks": checks,
         "not_applicable": na,
-        "notes": "exit 0 held (KNOWN-FINDING lines allowed), 1 VIOLATION, 3 checker error. known_findings.json lists genuine defects of the pinned tree; obligations.lock.json lists obligations discharged on it.",
+        "notes": "exit 0 held (KNOWN-FINDING lines allowed), 1 VIOLATION, 2 UNDECIDED (obligations discharged on the pinned tree can no longer be generated: body left the translatable subset or wall limit; no VIOLATION line), 3 checker error. known_findings.json lists genuine defects of the pinned tree; obligations.lock.json lists obligations discharged on it.",
     }
     json.dump(man, open("MANIFEST.json", "w"), indent=1)
     import jsonschema
